@@ -180,6 +180,8 @@ class TransformedTargetForecaster(
             if hasattr(transformer, "update"):
                 transformer.update(y, update_params=update_params)
                 self.steps_[step_idx] = (name, transformer)
+            # later steps work on the transformed representation, as in `fit`
+            y = transformer.transform(y)
 
         name, forecaster = self.steps_[-1]
         forecaster.update(y, update_params=update_params)
